@@ -30,7 +30,7 @@ ASSUMPTIONS = ["ambiguous encodings (bool, integral floats for Discrete) are not
                "Discrete = Python int or numpy integer in [0, n)"]
 REQUIRED = ["C17:malformed-rejected-in-time", "C17:no-effect-on-reject", "C17:malformed-never-executed", "C17:allocation-denoted",
             "C17:target-reached", "C17:residual-in-cash"]
-REQUIRED_CATS = ["per-contract-bounds", "second-episode", "box", "discrete", "with-cash", "nr-contracts", "delay:1", "delay:2"]
+REQUIRED_CATS = ["fit-transformers", "per-contract-bounds", "second-episode", "box", "discrete", "with-cash", "nr-contracts", "delay:1", "delay:2"]
 REQUIRED_HITS = ["Broker.transact", "Broker.rebalance"]
 TECHNIQUE = "runtime monitoring with fault injection: malformed actions injected into episodes; Broker.transact hook proves nothing executed"
 LEVEL_TEXT = ("Fault enumeration over the kinds of malformed action x space type x delay, each injected at a random step of a real "
@@ -101,7 +101,16 @@ def case(ctx, i, tier):
     tr = Transmitter(grid)
     tr.add_events(evs)
     sink = ep.Sink()
-    env = TradingEnv(action_space=sp_, transmitter=tr, steps_delay=d, initial_cash=1e6, state=ep.Rec(sink))
+    fitted = rng.random() < 0.2
+    if fitted:
+        # an environment whose feature transformers are fitted at construction (a warm-up backtest
+        # runs, after which observations are no longer verified): actions still are
+        from tradingenv.library import FeaturePrices
+        env = TradingEnv(action_space=sp_, transmitter=tr, steps_delay=d, initial_cash=1e6,
+                         state=[FeaturePrices(cs)], fit_transformers=True)
+        ctx.cat("fit-transformers")
+    else:
+        env = TradingEnv(action_space=sp_, transmitter=tr, steps_delay=d, initial_cash=1e6, state=ep.Rec(sink))
     sink.env = env
     inj = rng.randint(0, n - 2)
     bad_name, bad = bads[(ctx.index // 3) % len(bads)]
